@@ -607,17 +607,25 @@ impl<Db: Database> StorageManager<Db> {
         if self.is_transaction_active() {
             let transaction_records = self.transaction.get_users_states(usernames, flag);
             for (label, value_state) in transaction_records.into_iter() {
-                if let Some((epoch, _)) = data.get(&label) {
+                // The data layer only returns (version, value) pairs here. A user's versions
+                // increase with the epochs, so versions can stand in for epochs when deciding
+                // whether the transaction log's record supersedes the one from the database.
+                let take_transaction_record = match data.get(&label) {
                     // there is an existing DB record, check if we should updated it from the transaction log
-                    if let Some(updated_record) =
-                        Self::compare_db_and_transaction_records(*epoch, value_state, flag)
-                    {
-                        data.insert(label, (*epoch, updated_record.value));
-                    }
-                } else {
+                    Some((db_version, _)) => match flag {
+                        ValueStateRetrievalFlag::SpecificVersion(_)
+                        | ValueStateRetrievalFlag::SpecificEpoch(_) => true,
+                        ValueStateRetrievalFlag::LeqEpoch(_) | ValueStateRetrievalFlag::MaxEpoch => {
+                            value_state.version >= *db_version
+                        }
+                        ValueStateRetrievalFlag::MinEpoch => value_state.version <= *db_version,
+                    },
                     // there is no db-equivalent record, but there IS a record in the transaction log.
                     // Take the transaction log value
-                    data.insert(label, (value_state.epoch, value_state.value));
+                    None => true,
+                };
+                if take_transaction_record {
+                    data.insert(label, (value_state.version, value_state.value));
                 }
             }
         }
